@@ -3,7 +3,12 @@ import Fabio.Props.C18
 /-!
 Obligations over the facts regenerated from `/repo` on every run: the shapes of the code from which the
 per-type contracts of `Fabio.Model.C18` were read. `…Events` lists are the calls / channel receives / go
-statements of a function body in source order.
+statements of a function in source order with unexported same-package helpers inlined, named by MEANING (see the
+header of tools/factgen/c18.go): `pkg.Func`, `.Method` (whatever the receiver is called), builtins, `local()`,
+`handler`, `close-listener` / `close-conn` (a `Close` on the loop variable of a range over a field whose declared type
+mentions net.Listener / net.Conn), `<-p0.Done` (receive from a method of parameter 0), `<-notified`, `<-pkgvar`,
+`<-local`, `store-registry`. Renaming locals, parameters, receivers, unexported functions, fields and types,
+extracting or inlining helpers, switch ↔ if and named constants do not change them.
 -/
 namespace Fabio.Props.C18Facts
 open Fabio Fabio.Model.C18 Fabio.Generated.C18
@@ -20,55 +25,52 @@ def before (a b : String) (l : List String) : Bool :=
 
 /-- `proxy.Shutdown` installs a fresh empty registry (under the lock, before it starts any goroutine). -/
 theorem shutdown_installs_empty_registry :
-    shutdownInstallsEmptyRegistry = true ∧ before "mu.Lock" "mu.Unlock" shutdownEvents = true ∧
-    before "mu.Unlock" "go" shutdownEvents = true := by decide
+    shutdownInstallsEmptyRegistry = true ∧ before ".Lock" ".Unlock" shutdownEvents = true ∧
+    before ".Unlock" "go" shutdownEvents = true := by decide
 
 /-- One `context.WithTimeout(…, timeout)` per server — `timeout` being the function's parameter — and that
 context is what the server's `Shutdown` receives. -/
 theorem shutdown_deadline_per_server :
-    shutdownOneTimeoutCtxPerServer = true ∧ shutdownTimeoutArg = shutdownParam ∧ shutdownParam ≠ "" ∧
-    shutdownPassesCtxToServer = true ∧ before "context.WithTimeout" "srv.Shutdown" shutdownEvents = true := by decide
+    shutdownOneTimeoutCtxPerServer = true ∧ shutdownTimeoutIsParam = true ∧
+    shutdownPassesCtxToServer = true ∧ before "context.WithTimeout" ".Shutdown" shutdownEvents = true := by decide
 
 /-- The fan-out is joined by a WaitGroup: Add before go, Done inside, Wait after. -/
 theorem shutdown_waits_for_all :
-    before "wg.Add" "go" shutdownEvents = true ∧ shutdownEvents.contains "wg.Done" = true ∧
-    before "srv.Shutdown" "wg.Wait" shutdownEvents = true ∧ shutdownEvents.getLast? = some "wg.Wait" := by decide
+    before ".Add" "go" shutdownEvents = true ∧ shutdownEvents.contains ".Done" = true ∧
+    before ".Shutdown" ".Wait" shutdownEvents = true ∧ shutdownEvents.getLast? = some ".Wait" := by decide
 
 /-- Every `ListenAndServe*` registers its server through `serve()` before serving. -/
 theorem every_listener_registers :
-    serveRegisters = true ∧ listenAndServeNotThroughServe = [] ∧ before "mu.Unlock" "srv.Serve" serveEvents = true := by decide
+    listenAndServeNotRegistering = [] ∧ before ".Lock" "store-registry" serveEvents = true ∧
+    before "store-registry" ".Unlock" serveEvents = true ∧ before ".Unlock" ".Serve" serveEvents = true := by decide
 
 /-- `tcp.Server.Shutdown`: close the listeners, wait for the context, close the connections — and nothing else:
 the event list of the body is pinned exactly, so there is no further call, channel receive or `Wait` that
 could block after the deadline (the model's tcp contract returns *at* the deadline whatever the handlers are
 doing, e.g. a handler still inside `net.DialTimeout`). The two helpers only lock, close and unlock. -/
 theorem tcp_shutdown_order :
-    before "s.closeListeners" "<-ctx.Done()" tcpShutdownEvents = true ∧
-    before "<-ctx.Done()" "s.closeConns" tcpShutdownEvents = true ∧
-    tcpCloseListenersEvents.contains "l.Close" = true ∧ tcpCloseConnsEvents.contains "c.Close" = true := by decide
+    before "close-listener" "<-p0.Done" tcpShutdownEvents = true ∧
+    before "<-p0.Done" "close-conn" tcpShutdownEvents = true := by decide
 
 theorem tcp_shutdown_nothing_blocks_after_deadline :
-    tcpShutdownEvents = ["s.closeListeners", "<-ctx.Done()", "ctx.Done", "s.closeConns"] ∧
-    tcpCloseListenersEvents = ["s.mu.Lock", "l.Close", "s.mu.Unlock"] ∧
-    tcpCloseConnsEvents = ["s.mu.Lock", "c.Close", "s.mu.Unlock"] := by decide
+    tcpShutdownEvents = [".Lock", "close-listener", ".Unlock", "<-p0.Done", ".Done", ".Lock", "close-conn", ".Unlock"] := by decide
 
 /-- `gRPCServer.Shutdown` looks at its context (as shipped it did not: D22) and still stops gracefully first,
 with a hard `Stop` for the deadline. -/
 theorem grpc_shutdown_uses_ctx :
-    grpcShutdownUsesCtx = true ∧ grpcShutdownEvents.contains "s.server.GracefulStop" = true ∧
-    grpcShutdownEvents.contains "s.server.Stop" = true ∧
-    grpcShutdownEvents.contains ("<-" ++ grpcShutdownParam ++ ".Done()") = true := by decide
+    grpcShutdownUsesCtx = true ∧ grpcShutdownEvents.contains ".GracefulStop" = true ∧
+    grpcShutdownEvents.contains ".Stop" = true ∧ grpcShutdownEvents.contains "<-p0.Done" = true := by decide
 
 /-- `InetAfTCPProxyServer.Shutdown`: outer listener first, children get the caller's context. -/
 theorem inetaf_shutdown_order :
-    before "tps.Proxy.Close" "sl.s.Shutdown" inetafShutdownEvents = true ∧ inetafChildrenGetCtx = true := by decide
+    before ".Close" ".Shutdown" inetafShutdownEvents = true ∧ inetafChildrenGetCtx = true := by decide
 
 /-- main.go's exit handler: mark shutting down → deregister → grace sleep → `proxy.Shutdown(ShutdownWait)`. -/
 theorem exit_handler_order :
-    before "atomic.StoreInt32" "registry.Default.DeregisterAll" exitHandlerEvents = true ∧
-    before "registry.Default.DeregisterAll" "time.Sleep" exitHandlerEvents = true ∧
+    before "atomic.StoreInt32" ".DeregisterAll" exitHandlerEvents = true ∧
+    before ".DeregisterAll" "time.Sleep" exitHandlerEvents = true ∧
     before "time.Sleep" "proxy.Shutdown" exitHandlerEvents = true ∧
-    exitHandlerSleepArg = "cfg.Proxy.DeregisterGracePeriod" ∧ exitHandlerShutdownArg = "cfg.Proxy.ShutdownWait" := by decide
+    exitHandlerSleepArg = ".Proxy.DeregisterGracePeriod" ∧ exitHandlerShutdownArg = ".Proxy.ShutdownWait" := by decide
 
 /-- Walks the flattened body of the refresh loop: every "listen" must be preceded by a "test" of `shuttingDown`
 with no "sleep" in between (a sleep forgets the test: the flag may have been set meanwhile). -/
@@ -87,7 +89,7 @@ def guarded (l : List String) : Bool := guardedAux false (l ++ l)
 `shuttingDown`, and it does so after it wakes up — on every path through the loop body there is no sleep
 between the test and a listen. -/
 theorem refresher_stops_on_shutdown :
-    refresherStartsListeners = true ∧ refresherLooksAtShuttingDown = true ∧
+    refresherLoopEvents.contains "test" = true ∧
     refresherLoopEvents.contains "sleep" = true ∧ refresherLoopEvents.contains "listen" = true ∧
     guarded refresherLoopEvents = true := by decide
 
@@ -101,33 +103,34 @@ example : guarded ["sleep", "test", "listen", "test", "listen"] = true := by dec
 (`make`, `len`, `delete`), the listener's address, a log line. Anything else — a `Shutdown(ctx)`, a `Wait`, a
 channel receive (`<-…`), a `go`, `time.Sleep` — is not in the list and breaks the obligation. -/
 def bookkeeping : List String :=
-  ["srv.Close", "log.Printf", "delete", "make", "len", "ln.Addr().String", "ln.Addr"]
+  [".Close", "log.Printf", "delete", "make", "len", ".Addr", ".String", "store-registry"]
 
 def onlyBookkeeping (l : List String) : Bool := l.all (fun e => bookkeeping.contains e)
 
 /-- **Tie of the lock assumption** (`Model.C18.lockAcquired`, hypothesis `hlock` of
 `shutdown_bounded_from_call`): in every function of proxy/serve.go that takes `mu` — `CloseProxy`, `Close`,
-`Shutdown`, `serve` — only bookkeeping happens between `mu.Lock()` and `mu.Unlock()`. -/
+`Shutdown`, `serve`, or any helper they are split into — only bookkeeping happens between the registry lock's
+`Lock()` and `Unlock()` (helpers called under the lock inlined), and the registration and the removal are among it. -/
 theorem registry_lock_only_bookkeeping :
-    onlyBookkeeping underLockCloseProxy = true ∧ onlyBookkeeping underLockClose = true ∧
-    onlyBookkeeping underLockShutdown = true ∧ onlyBookkeeping underLockServe = true := by decide
+    onlyBookkeeping underRegistryLock = true ∧ underRegistryLock.contains "store-registry" = true ∧
+    underRegistryLock.contains "delete" = true := by decide
 
-example : onlyBookkeeping ["context.WithTimeout", "context.Background", "srv.Shutdown", "cancel", "log.Printf", "delete"] = false := by decide
-example : onlyBookkeeping ["srv.Close", "<-done"] = false := by decide
+example : onlyBookkeeping ["context.WithTimeout", "context.Background", ".Shutdown", "local()", "log.Printf", "delete"] = false := by decide
+example : onlyBookkeeping [".Close", "<-local"] = false := by decide
 
 /-- `exit.Listen`: the signal registration is made before the handler runs and stays in force while it runs —
 nothing of os/signal is called besides `Notify` (no `signal.Stop`/`Reset`/`Ignore`), so a second SIGTERM/SIGINT
 during the drain is swallowed instead of killing the process with the default action. -/
 theorem exit_listen_keeps_signals_caught :
-    exitListenEvents = ["signal.Notify", "<-sigchan", "<-quit", "handler"] := by decide
+    exitListenEvents = ["signal.Notify", "<-notified", "<-pkgvar", "handler"] := by decide
 
 /-- The bounded-from-the-call theorem at the contract and the lock discipline read from this tree. -/
 theorem shutdown_bounded_from_call_on_this_tree (called wait : Nat) (srvs : List Server) :
     tle (shutdownCalled (if grpcShutdownUsesCtx then .stopsAtDeadline else .ignoresDeadline) called
-          (if onlyBookkeeping (underLockCloseProxy ++ underLockClose ++ underLockShutdown ++ underLockServe) then called else called + 1)
+          (if onlyBookkeeping underRegistryLock then called else called + 1)
           wait srvs) (some (called + wait)) = true := by
   have h1 : grpcShutdownUsesCtx = true := by decide
-  have h2 : onlyBookkeeping (underLockCloseProxy ++ underLockClose ++ underLockShutdown ++ underLockServe) = true := by decide
+  have h2 : onlyBookkeeping underRegistryLock = true := by decide
   simp only [h1, h2, if_true]
   exact (Props.C18.shutdown_bounded_from_call Props.C18.repaired_contract_bounded called called wait (Nat.le_refl _) srvs).1
 
